@@ -177,6 +177,11 @@ def mon_c01(spec, run):
 def mon_c08(spec, run):
     bad = []
     ws = writes(run.trace)
+    for t, d, _ in ws:
+        # two lines handed to the port in one write are two transmissions started at the same instant
+        if d.count(b"\r\n") > 1 or (b"\r\n" in d[:-2]):
+            bad.append(("spacing", f"one write carries more than one CR LF terminated line ({d[:60]!r}): the lines in it are started 0 ms apart (< 100 ms)"))
+            return bad
     for (t1, d1, _), (t2, d2, _) in zip(ws, ws[1:]):
         if t2 - t1 < SPACING_US:
             bad.append(("spacing", f"writes {d1[:40]!r} at {t1 / 1e6:.6f}s and {d2[:40]!r} at {t2 / 1e6:.6f}s are {(t2 - t1) / 1000:.3f} ms apart (< 100 ms)"))
